@@ -396,10 +396,12 @@ def _run(ctx, sub, hostile):
     lc = [c for _, _, c in lcl]
     limpl, st = vlib.run_sharded(exe, lc, env=env)
     _sanitizer(ctx, sub + ".long-name", st, lc, limpl)
-    lspec, _ = vlib.run_sharded(mexe, ["spec " + c for c in lc])
+    # the extracted programs recurse once per character in places: a stack of 4 GB (or unlimited) for them
+    big = ["-c", 'ulimit -s 4000000 2>/dev/null || ulimit -s unlimited 2>/dev/null; exec "$0"', mexe]
+    lspec, _ = vlib.run_sharded("/bin/sh", ["spec " + c for c in lc], args=big)
     mi = [i for i, (L, heavy, c) in enumerate(lcl) if not heavy or (not ctx.quick and L <= 65541)]
     mi.sort(key=lambda i: -lcl[i][0])           # the slow ones first, one per shard
-    mout, _ = vlib.run_sharded(mexe, [lc[i] for i in mi], shards=min(len(mi), 4 * vlib.NCPU), timeout=3000)
+    mout, _ = vlib.run_sharded("/bin/sh", [lc[i] for i in mi], shards=min(len(mi), 4 * vlib.NCPU), timeout=3000, args=big)
     lmodel = list(lspec)
     for i, o in zip(mi, mout):
         lmodel[i] = o
